@@ -2,6 +2,7 @@ package main
 
 import (
 	"fmt"
+	"go/types"
 	"sort"
 	"strings"
 
@@ -211,6 +212,76 @@ func runC11(c *Ctx) {
 					c.Require("C11.R4 derived-state-invalidated", FuncKey(fn)+": field "+name, p.Pos(fn.Pos()), "a mutable, non-persisted field of the tree handle is reset or recomputed whenever size changes", ok, "written only in: "+funcNames(writers))
 				}
 			}
+		}
+		// R6: the tree shape is LIP-0031's — wherever a list is cut in two halves that are
+		// hashed separately (x[:d] and x[d:] with the same d), d is the largest power of two
+		// below the length, computed in one of the recognised ways (2^⌊log2(n−1)⌋, a bit-length
+		// shift, or a doubling loop); a midpoint split gives another tree for most lengths
+		{
+			nSplit := 0
+			for _, fn := range p.Subjects() {
+				if !strings.HasPrefix(FuncKey(fn), "pkg/trie/rmt.") || len(fn.Blocks) == 0 || !IsProd(fn) {
+					continue
+				}
+				lows := map[string][]*ssa.Slice{}
+				highs := map[string][]*ssa.Slice{}
+				for _, b := range blocksDeep(fn) {
+					for _, in := range b.Instrs {
+						sl, ok := in.(*ssa.Slice)
+						if !ok {
+							continue
+						}
+						if _, isSlice := sl.X.Type().Underlying().(*types.Slice); !isSlice {
+							continue
+						}
+						base := T(sl.X).String()
+						if sl.Low != nil && sl.High == nil {
+							if _, isC := sl.Low.(*ssa.Const); !isC {
+								lows[base+"|"+T(sl.Low).String()] = append(lows[base+"|"+T(sl.Low).String()], sl)
+							}
+						}
+						if sl.High != nil && sl.Low == nil {
+							if _, isC := sl.High.(*ssa.Const); !isC {
+								highs[base+"|"+T(sl.High).String()] = append(highs[base+"|"+T(sl.High).String()], sl)
+							}
+						}
+					}
+				}
+				calleesOf := func(v ssa.Value) map[string]bool {
+					out := map[string]bool{}
+					for _, r := range *v.Referrers() {
+						if cl, ok := r.(ssa.CallInstruction); ok {
+							out[CalleeName(cl.Common())] = true
+						}
+					}
+					return out
+				}
+				for k, hs := range highs {
+					if len(lows[k]) == 0 {
+						continue
+					}
+					// both halves go into calls of one and the same function (the recursion)
+					same := false
+					for n := range calleesOf(hs[0]) {
+						if calleesOf(lows[k][0])[n] && !strings.HasPrefix(n, "builtin:") {
+							same = true
+						}
+					}
+					if !same {
+						continue
+					}
+					nSplit++
+					d := T(hs[0].High)
+					ds := d.String()
+					okPow := strings.Contains(ds, "math.Pow(2") && strings.Contains(ds, "math.Log2(") ||
+						strings.Contains(ds, "math/bits.Len") ||
+						d.Any(func(t *Term) bool {
+							return t.Op == "phi" && t.Any(func(u *Term) bool { return u.Op == "binop" && ((u.Sym == "*" && (u.Args[1].String() == "2" || u.Args[0].String() == "2")) || (u.Sym == "<<" && u.Args[1].String() == "1")) })
+						})
+					c.Require("C11.R6 split-at-largest-power-of-two", FuncKey(fn)+": "+strings.SplitN(k, "|", 2)[0]+"[:d] / [d:]", p.InstrPos(hs[0]), "a list hashed as two halves is cut at the largest power of two below its length", okPow, "d = "+ds)
+				}
+			}
+			c.MinInstances("C11.R6 split-at-largest-power-of-two", nSplit, 1)
 		}
 		// R5: the append path is handed out by AppendPath()/GenerateRightWitness as it is;
 		// Append must build a new one (an earlier result must stay the path of the earlier size)
